@@ -44,7 +44,7 @@ def child_env(hashseed):
 
 
 def event_key(e):
-    d = {k: v for k, v in e.items() if k not in ("id", "hashseed", "src", "case", "nontrivial", "tags")}
+    d = {k: v for k, v in e.items() if k not in ("id", "hashseed", "src", "case", "nontrivial", "tags", "text")}
     return hashlib.sha1(json.dumps(d, sort_keys=True).encode()).hexdigest()
 
 
